@@ -336,6 +336,10 @@ impl Prop for C03 {
         ]
     }
 
+    fn fuzz_targets(&self) -> Vec<(&'static str, u64)> {
+        vec![("fuzz_cursor", 40_000)]
+    }
+
     fn run(&self, case: &Case, obs: &mut Obs) -> Check {
         match case {
             Case::Explore(spec) => {
